@@ -419,6 +419,13 @@ def _f16(op, a, out, msg):
 
 
 def _f17(op, a, out, msg):
+    if op.name == "cmpfrac":
+        # the older float stream: fractions are eighths (exact), so noise arises only when a decimal-hour
+        # form is re-zoned by minutes that are not a multiple of 15 - and only equal instants are affected
+        m, ta, fa, tb, fb = a
+        hourform = fa[0] == "h" or fb[0] == "h"
+        return ("the instants say 0" in msg and hourform
+                and (ta[8] % 15 != 0 or tb[8] % 15 != 0))
     return op.name == "cmpq" and _float_equal_instants(op, a, out, msg)
 
 
